@@ -388,7 +388,11 @@ def b6_restore_on_every_exit(F, R):
                 # comparison calls at different program points over the same (immutable) values denote the same test
                 if isinstance(t, tuple):
                     if t and t[0] == 'call' and len(t) > 3 and (t[2].endswith('::ne') or t[2].endswith('::eq')):
-                        return ('call', t[2], tuple(norm(a) for a in t[3]))
+                        args_ = []
+                        for a in t[3]:
+                            v_ = local_value_of_ref(S, a) if (a[0] == 'ref' and a[1][1][0] == 'local' and not a[1][2]) else None
+                            args_.append(norm(v_ if v_ is not None else a))
+                        return ('call', t[2], tuple(args_))
                     if t and t[0] == 'refto':
                         return norm(t[1])
                     return tuple(norm(x) for x in t)
